@@ -48,7 +48,8 @@ def run(env):
                     sc = w1.to_bytes(4, "little") + w2.to_bytes(4, "little") + bytes(4) * 4 + r.randbytes(64)
                     cases.append({"ctx": "B:%d" % p, "op": bound_op, "args": [hexb(sc)], "tag": "exhaustive-bits"})
     env.exhaustive = True
-    for pstr, n in (("65267", 40), (str(P62), 60), ("2048", 4 if env.quick else 30)):
+    # q of 8 bits (p = 263: a bit length divisible by 8), 10 bits, 15 bits, 61 bits, 2047 bits
+    for pstr, n in (("263", 40), ("2039", 20), ("65267", 40), (str(P62), 60), ("2048", 4 if env.quick else 30)):
         for _ in range(n):
             for op in ("rnd_exp", "rnd_plaintext", "rnd"):
                 cases.append({"ctx": "B:%s" % pstr, "op": op, "args": [script(r, 2600 if pstr == "2048" else 256)], "tag": "random-script"})
